@@ -109,6 +109,13 @@ func runC15(c *core.Ctx) {
 		runC15NaN(c)
 		return
 	}
+	if h := c.Index - hugeCases; h >= 0 && h < hugeLinearKinds {
+		c.Only = func(kind string) bool {
+			return kind == "size" || kind == "empty" || kind == "values" || kind == "string"
+		}
+		runHugeLinear(c, h, hugeLinearN(c.Tier))
+		return
+	}
 	kind := dynKinds[c.Index%len(dynKinds)]
 	d := newDynRandom(c, kind, false)
 	checkAgreement(c, d)
